@@ -8,6 +8,7 @@ import math
 import numpy as np
 
 DIM_NAMES = ["x", "y", "z", "t", "u", "v"]
+ODD_DIM_NAMES = ["x0", "X", "lat lon", "\u00e9", "xx", "time.1"]   # legal, comma-free, unusual: default-style, upper case, space, non-ASCII, prefix of another, dot
 STR_LABELS = ["a", "b", "c", "d", "e", "f", "g", "h"]
 INT_LABELS = list(range(-2, 11))
 FLOAT_LABELS = [k + 0.5 for k in range(-2, 11)] + [3.0, 8.0]     # two whole numbers: 3.0 meets the integer label 3 in joins
@@ -198,7 +199,7 @@ def build_array(spec, form=0):
         elif len(labs[0]) % 2:
             a = DimArray(vals, axes=(dims[0], labs[0]))
         else:
-            a = DimArray(vals, axes=[labs[0]], dims=dims[0])
+            a = DimArray(vals, axes=labs[0], dims=dims[0])      # the labels themselves (not a list of them) with the name as a string
     elif form == 13:  # a dict of plain lists (rank 2), or nested lists through from_nested, with labels= for every level
         if vals.ndim == 2 and 0 not in vals.shape and spec["dtype"] in ("f8", "i8"):
             l0 = labs[0].tolist()
